@@ -2,19 +2,45 @@
 import sys, os
 sys.path.insert(0, os.path.join(os.path.dirname(os.path.abspath(__file__)), '..', '..', 'engine'))
 from symgo.server import Server
+from symgo.run import REPO
 
 M = 'github.com/lianxiangcloud/linkchain'
 
 
 def run(tier, workdir):
-    srv = Server(['./cmd/...', './node/...', './consensus/...', './types/...', './blockchain/...'])
+    srv = Server(['./cmd/...', './node/...', './consensus/...', './types/...', './blockchain/...'], repo=REPO)
     try:
         r = srv.req(op='callers', prefix=M, target='(*%s/types.ValidatorSet).VerifyCommit' % M, method='')
         got = sorted(set(r.get('callers') or []))
         want = sorted(['(*%s/blockchain.BlockchainReactor).poolRoutine' % M, '%s/consensus.validateBlock' % M])
         r2 = srv.req(op='callers', prefix=M, target='(*%s/types.ValidatorSet).VerifyCommitAny' % M, method='')
         any_callers = r2.get('callers') or []
+        # fast sync applies up to ten blocks per tick, and ApplyBlock replaces the status after each: the
+        # validator set a block's commit is verified against must be read from the status right at the
+        # call (same basic block, a load), not carried over from before the batch loop
+        fresh, fdetail = None, 'VerifyCommit call not found in poolRoutine'
+        try:
+            fid = srv.lookup('(*%s/blockchain.BlockchainReactor).poolRoutine' % M)
+            vc = srv.lookup('(*%s/types.ValidatorSet).VerifyCommit' % M)
+            fn = srv.func(fid)
+            defs = {}
+            for bi, b in enumerate(fn['blocks']):
+                for ins in b:
+                    if isinstance(ins.get('r'), int):
+                        defs[ins['r']] = (bi, ins)
+            for bi, b in enumerate(fn['blocks']):
+                for ins in b:
+                    if ins.get('o') == 'Call' and isinstance(ins.get('fn'), dict) and ins['fn'].get('f') == vc:
+                        recv = ins['args'][0]
+                        d = defs.get(recv) if isinstance(recv, int) else None
+                        fresh = bool(d and d[0] == bi and d[1].get('o') == 'UnOp')
+                        fdetail = 'receiver defined by %s in block %s, call in block %d (%s)' % (
+                            d[1].get('o') if d else None, d[0] if d else None, bi, ins.get('pos'))
+        except Exception as e:
+            fdetail = 'error: %r' % (e,)
         return [
+            dict(name='fast-sync-verifies-each-commit-against-the-validator-set-read-at-that-block', ok=fresh,
+                 detail=fdetail, kind='ssa-dataflow'),
             dict(name='commit-acceptance-goes-through-VerifyCommit-only-at-block-validation-and-fast-sync',
                  ok=(got == want), detail=got, kind='ssa-callgraph'),
             # VerifyCommitAny tallies by address (one validator can be counted twice); it must stay unused
